@@ -568,6 +568,7 @@ impl Writer {
                 // switch to new merge data file if we exceed the max file size
                 merge_pos += nbytes;
                 if merge_pos > self.ctx.conf.max_file_size {
+                    sync_merge_outputs(&mut merge_datafile_writer, &mut merge_hintfile_writer)?;
                     merge_fileid += 1;
                     merge_pos = 0;
                     merge_datafile_writer =
@@ -577,6 +578,9 @@ impl Writer {
                     debug!(merge_fileid, "new merge file");
                 }
             }
+            // The merged files below hold the only other copy of the entries we have just
+            // copied: force the copies to stable storage before removing them.
+            sync_merge_outputs(&mut merge_datafile_writer, &mut merge_hintfile_writer)?;
         }
 
         #[cfg(feature = "verif")]
@@ -744,6 +748,17 @@ async fn sync_on_interval(handle: Handle, mut shutdown: Shutdown) -> Result<(), 
             }
         }
     }
+    Ok(())
+}
+
+/// Flush and synchronize a pair of merge output files (data file and its hint file) to disk.
+fn sync_merge_outputs(
+    datafile_writer: &mut BufWriter<fs::File>,
+    hintfile_writer: &mut LogWriter,
+) -> Result<(), Error> {
+    io::Write::flush(datafile_writer)?;
+    datafile_writer.get_ref().sync_all()?;
+    hintfile_writer.sync()?;
     Ok(())
 }
 
